@@ -315,6 +315,15 @@ func c08Run(ctx context.Context, w *vWorld, account *vReplica, mat *c08Material,
 	out.queueLen, out.watchdog = c08Quiesce(gc, out.arrivals)
 	out.stuck = out.watchdog == "" && out.queueLen > 0
 	verifsched.ClearPlan()
+	if out.watchdog != "" {
+		// the pipeline did not become quiescent: its locks may be held for good, so nothing of the store is called any more
+		// (neither the cache sizes nor Close, which waits for the store's tasks); this receiver is abandoned as it is
+		go func() {
+			for range sub.Out() {
+			}
+		}()
+		return out, nil
+	}
 	out.metaEntries = gc.MetadataStore().OpLog().Len()
 	for si, snd := range mat.senders {
 		if n, ok := gc.MessageStore().CacheSizeForDevicePK(snd.device); ok {
@@ -337,7 +346,11 @@ func c08Quiesce(gc *GroupContext, arrivals int) (int, string) {
 	for {
 		select {
 		case <-watchdog:
-			return 0, fmt.Sprintf("arrivals=%d queued=%d meta=%d handled=%d", arrivals, c08Hit("store_message.go:addToMessageQueue:exit"), gc.MetadataStore().OpLog().Len(), c08Hit("group_context.go:handleGroupMetadataEvent:exit"))
+			msg := fmt.Sprintf("arrivals=%d queued=%d meta=%d handled=%d", arrivals, c08Hit("store_message.go:addToMessageQueue:exit"), gc.MetadataStore().OpLog().Len(), c08Hit("group_context.go:handleGroupMetadataEvent:exit"))
+			if blocked := c08BlockedOnStoreLock(); blocked != "" {
+				return 0, "DEADLOCK: " + blocked + " (" + msg + ")"
+			}
+			return 0, msg
 		case <-time.After(2 * time.Millisecond):
 		}
 		metaLen := int64(gc.MetadataStore().OpLog().Len())
@@ -389,6 +402,46 @@ func c08Quiesce(gc *GroupContext, arrivals int) (int, string) {
 	}
 }
 
+// c08BlockedOnStoreLock: after the quiescence watchdog fired, are there goroutines of the message store that have been
+// sitting in a mutex acquisition inside store_message.go for six consecutive samples 100 ms apart (the same goroutines)?
+// The store's critical sections are a few map operations long; a task that waits that long for one of its locks will wait
+// for ever. Returns a description, or "" when nobody is blocked that way.
+func c08BlockedOnStoreLock() string {
+	var prev map[int64]string
+	for i := 0; i < 6; i++ {
+		cur := map[int64]string{}
+		for _, g := range verifsched.Goroutines() {
+			if !(strings.Contains(g.State, "Mutex") || strings.Contains(g.State, "semacquire")) || verifsched.HeldByPlan(g) {
+				continue
+			}
+			for _, f := range g.Frames {
+				if strings.Contains(f, "(*MessageStore).") {
+					cur[g.ID] = fmt.Sprintf("%s[%s] in %s", g.Role, g.State, f)
+					break
+				}
+			}
+		}
+		if prev != nil {
+			for id := range cur {
+				if _, was := prev[id]; !was {
+					delete(cur, id)
+				}
+			}
+		}
+		if len(cur) == 0 {
+			return ""
+		}
+		prev = cur
+		time.Sleep(100 * time.Millisecond)
+	}
+	var out []string
+	for _, d := range prev {
+		out = append(out, d)
+	}
+	sort.Strings(out)
+	return strings.Join(out, "; ")
+}
+
 // c08Judge applies the conservation oracle.
 func c08Judge(rep *verifkit.Report, mat *c08Material, steps []c08Step, plan string, o *c08Outcome, closeEarly bool) {
 	var names []string
@@ -401,6 +454,10 @@ func c08Judge(rep *verifkit.Report, mat *c08Material, steps []c08Step, plan stri
 			w[k] = v
 		}
 		return w
+	}
+	if strings.Contains(o.watchdog, "DEADLOCK: ") {
+		rep.Violate("C08/pipeline-blocked-on-its-own-lock", "the pipeline never became quiescent and tasks of the message store sit in a lock acquisition of the store for good: what they were to deliver or release stays where it is", wit(map[string]interface{}{"detail": o.watchdog}))
+		return
 	}
 	if o.watchdog != "" {
 		rep.Inconclusivef("no quiescence under %s / %v: %s", plan, names, o.watchdog)
@@ -601,7 +658,11 @@ func TestVerifC08(t *testing.T) {
 	}
 	realisedTotal, plannedTotal, runs := 0, 0, 0
 	instrumented := false
+	deadlocks := 0
 	for si, sc := range scens {
+		if deadlocks >= 2 {
+			break
+		}
 		mat, err := c08Prepare(ctx, w, account, sc.senders, sc.before, sc.after)
 		if err != nil {
 			rep.Inconclusivef("prepare %s: %v", sc.name, err)
@@ -609,6 +670,9 @@ func TestVerifC08(t *testing.T) {
 		}
 		steps := sc.steps(mat)
 		runOnce := func(plan string, install func()) *c08Outcome {
+			if deadlocks >= 2 {
+				return &c08Outcome{} // the pipeline has been found blocked on its own lock twice: every further run would only wait for the watchdog again
+			}
 			verifsched.Reset(false)
 			verifsched.ResetRoles()
 			if install != nil {
@@ -624,6 +688,9 @@ func TestVerifC08(t *testing.T) {
 			}
 			rep.Eval(1)
 			c08Judge(rep, mat, steps, plan, o, sc.closeEarly)
+			if strings.Contains(o.watchdog, "DEADLOCK: ") {
+				deadlocks++
+			}
 			return o
 		}
 		prof := map[string]map[string]int64{}
